@@ -27,7 +27,7 @@ CHECKS = {
    text="Lean theorems over the ConnLimit transition system (listener takes a permit before accept; a handler's Drop returns it whatever ends the handler): in every reachable state "
         "permits + running handlers + [listener holds one] = max; never more than max handlers; after all handlers ended every permit is available; a waiting client can always be admitted while fewer "
         "than max are served. The same LTS, executed by the driver, predicts for seeded event scripts (connect / probe / clean close / garbage / half frame / handler panic) which connections the real "
-        "server serves; observed over loopback TCP at max_connections 1..3.",
+        "server serves; observed over loopback TCP at max_connections 1..3. Failing accept(2) calls are steps of the LTS (acceptFail; c15_accept_failure_free: a failed attempt costs no permit) and are injected into the real listener by the LD_PRELOAD layer (EMFILE / ECONNABORTED, up to the four in a row its back-off tolerates): afterwards exactly max_connections clients are served at a time.",
    note=COMMON_NOTE + "PARTIAL: the protocol logic is proved; tokio Semaphore / task-drop-on-panic semantics and the kernel's FIFO accept queue are trusted; 'served' is observed with timeouts "
         "(positive expectations wait 5 s, negative ones 250 ms, so a slow machine cannot fabricate an alarm).",
    technique="Lean 4 proof (invariant over a labelled transition system) + model-predicted scenario replay against the real server",
@@ -36,7 +36,7 @@ CHECKS = {
    text="Lean theorems over the handler model the driver executes (read frame -> command -> map operation -> one reply): every well-formed SET/GET/DEL request frame is parsed back to its command; for any "
         "request sequence the handler writes exactly the concatenation of the map model's replies, in order, one per request, and leaves the store as the map does; GET returns the stored bytes verbatim; "
         "DEL counts each key as it is deleted in turn. Tied to the real server over loopback TCP: request scripts x segmentations (down to one byte) x pipelining depths, values with CR/LF/NUL and up to "
-        "200 KB, compared byte for byte with a python map and the Lean model. At byte level (Props/C06Bytes.lean): for EVERY segmentation of the bytes of any well-formed request sequence the reply bytes and the final store are those of the map model (segmentation and pipelining are irrelevant); a stream that ends inside a request yields exactly the replies of the complete requests before it and a reset, never a reply to the partial one. Client library (Props/C06Client.lean, Resp/Client.lean): what Client::{get,set,del} return for the map model's reply is the map's answer; error frames, end of stream and replies of the wrong kind are rejected, never taken for a value; tied by running the real Client against a scripted server (request bytes and results vs the driver).",
+        "200 KB, compared byte for byte with a python map and the Lean model. At byte level (Props/C06Bytes.lean): for EVERY segmentation of the bytes of any well-formed request sequence the reply bytes and the final store are those of the map model (segmentation and pipelining are irrelevant); a stream that ends inside a request yields exactly the replies of the complete requests before it and a reset, never a reply to the partial one. Client library (Props/C06Client.lean, Resp/Client.lean): what Client::{get,set,del} return for the map model's reply is the map's answer; error frames, end of stream and replies of the wrong kind are rejected, never taken for a value; tied by running the real Client against a scripted server (request bytes and results vs the driver). Also: a sweep of value lengths around every power of ten up to 10^6 and DELs naming 100 / 101 keys (every decimal a reply can carry), and the same commands over stores configured at the edges (no reader cache, no reader pool, a file per entry, sync always).",
    note=COMMON_NOTE + "PARTIAL: the theorem is at the level of the frames a connection delivers; that those frames are independent of segmentation is C08 (c08 theorems), that the real store is the map is C01. "
         "Trusted: kernel TCP delivers bytes in order; tokio scheduling of handler and blocking pool.",
    technique="Lean 4 proof (handler model refines the map model, induction over requests) + differential correspondence with the real server over TCP",
@@ -54,7 +54,7 @@ CHECKS = {
    text="Lean theorems over the handler Shutdown LTS (top / select / executing / writing / done): a handler is never `done` with part of a reply on the wire (no torn reply); replies sent never exceed "
         "store operations returned (every acknowledged command is in the store), also for a reply still being written; after the signal a handler always has an own step enabled and every step strictly "
         "decreases an explicit distance to `done` (bounded by frames still deliverable), so run returns. Tied to the real server by firing the shutdown future at each handler state (idle, partial frame, "
-        "store call held on a gate, pipelined commands, 600 KB reply in flight, mixed). Byte level (Props/C06Bytes.lean): whatever the input, the reply byte string of the handler model is a concatenation of complete encodings of reply frames, one per applied command.",
+        "store call held on a gate, pipelined commands, 600 KB reply in flight, mixed). Byte level (Props/C06Bytes.lean): whatever the input, the reply byte string of the handler model is a concatenation of complete encodings of reply frames, one per applied command. One scenario keeps a command inside the store for 6.5 s (thorough: 35 s) after the signal: run() must keep waiting (no grace period), the reply arrives whole and the effect is in the store.",
    note=COMMON_NOTE + "PARTIAL: protocol logic proved; select! fairness under endless pipelining, TCP turning close-with-unread-data into RST (accepted as end of stream) and wall-clock bounds are observed, not proved. "
         "A client that never reads its reply is outside the property's listed client states.",
    technique="Lean 4 proof (safety invariant + variant function on a labelled transition system) + scenario replay against the real server",
@@ -87,7 +87,7 @@ CHECKS = {
    text="Lean theorems: a merge pass with ANY selected set below the active id and ANY KeyDir iteration order leaves every key reading as before (c05_now, full strength); after a following restart the same "
         "holds under the explicit hypothesis NoHazard (no deleted key whose deciding tombstone is merged away while an older value survives in an unselected file) - c05_restart_partial - and the full statement "
         "is refuted by a concrete counterexample that is also replayed on the real code (known finding D3). Tied to the real store by histories with merges under all threshold presets, reads after merge, "
-        "after a restart right after the merge (copy of the directory) and after reopen.",
+        "after a restart right after the merge (copy of the directory) and after reopen; one history in eight steps or stops the wall clock between operations (all theorems quantify over arbitrary timestamps), and the corpus holds the directed case: clock stepped back (or standing still) between two writes of a key, a pass over the newer file only, a restart.",
    note=COMMON_NOTE + "KNOWN FINDING D3 (known_findings.json): the unchanged code violates the restart half in exactly the NoHazard-negated class; the check classifies that class from the model (hazard query) and reports anything else.",
    technique="Lean 4 proof (merge refinement + recovery invariant under NoHazard, counterexample by decide) + differential correspondence with the real store",
    ref="DESIGN.md §5 C05"),
